@@ -14,7 +14,8 @@ RULE = (
     "template and track=True), over 4 four-bit variables and a Boolean whose constraints connect and disconnect variable groups in every "
     "order (single-variable constraints, bridging constraints, bridging extras, concrete true/false). Oracle: the brute-force model set "
     "over all 2^17 assignments - it has no notion of child solvers at all - checked after every step; after simplify() the stored "
-    "constraints must still have exactly that model set. Non-trivial: the history contains a bridging add (joins previously independent "
+    "constraints must still have exactly that model set. Also the string histories of C11 (finite-domain string variables, Python SMT-LIB reference) on SolverComposite, where the two string "
+    "variables start in separate children and constraints over both bridge them. Non-trivial: the history contains a bridging add (joins previously independent "
     "groups), or a simplify/split after one, or a branch with adds on both sides; distinct by SHA-1 of (frontend, history)."
 )
 ASSUMPTIONS = ["same latitude as C11 (DESIGN 3.2)", "brute-force reference exact within 17 variable bits"]
@@ -24,7 +25,10 @@ GROUPS = ("core", "maint", "branch", "algebra")
 
 
 def shards(tier, seed):
-    return sp.shards_for(tier, seed, 1200, CONFIGS, 220, 5000, per_quick=5, per_thorough=6)
+    out = sp.shards_for(tier, seed, 1200, CONFIGS, 220, 5000, per_quick=5, per_thorough=6)
+    for i in range(3 if tier == "quick" else 8):
+        out.append({"kind": "str", "frontend": "SolverComposite", "i": i, "n": 22 if tier == "quick" else 500, "hseed": seed * 1000 + 1280 + i})
+    return out
 
 
 def nontrivial(res):
@@ -37,11 +41,30 @@ def run_shard(shard, ctx):
 
     from .. import solver_machine as sm
 
+    if shard.get("kind") == "str":
+        from . import c11
+
+        return c11.run_shard({**shard, "reuse": False}, ctx)
+
     # every third shard runs the directed scenarios (exhaust two groups, then bridge them; extras must not stick)
     strategy = st.one_of(sm.scenario_exhaust_then_bridge(), sm.scenario_exhaust_then_bridge(), sm.scenario_extras_do_not_stick()) if shard["i"] % 3 == 2 else None
     sp.run_random(shard, ctx, GROUPS, nontrivial, strategy=strategy, extra=("scenario",) if strategy is not None else None)
 
 
-replay = sp.replay
-shrink = sp.shrink
+def replay(case):
+    if "domains" in case:
+        from . import c11
+
+        return c11.replay(case)
+    return sp.replay(case)
+
+
+def shrink(case, obs, fp, matcher, deadline):
+    if "domains" in case:
+        from . import c11
+
+        return c11.shrink(case, obs, fp, matcher, deadline)
+    return sp.shrink(case, obs, fp, matcher, deadline)
+
+
 KNOWN_PREDICATES = {}
